@@ -97,7 +97,12 @@ func createInstance(fn *Function, rtargs, targs []types.Type) *Function {
 			panic("Instantiate of a Signature returned a non-signature")
 		}
 		obj = fn.object // instantiation does not exist yet
-		sig = prog.canon.Type(instance).(*types.Signature)
+		// Do not canonicalize the signature: parameter names are not part
+		// of a Signature's type identity, so the canonical representative
+		// could be the signature of a different generic function that
+		// happened to be instantiated first, and the instance's parameter
+		// names (and their positions) would depend on build order.
+		sig = instance
 	}
 
 	// Choose strategy (instance or wrapper).
